@@ -478,6 +478,11 @@ class ProgGen(object):
         if "halt" in self.feat and not self.pure_mode and self.in_fun and not self.in_gen and d > 0 \
                 and (r.random() < 0.3 or "halt" in self.emph):
             choices += ["halt"] * (max(2, len(choices) // 4) if "halt" in self.emph else 1)
+        if "tup" in self.feat and not self.pure_mode and not self.in_gen and not (self.top_loop and not self.in_fun) \
+                and not (self.top_if and not self.in_fun):
+            sc_asg = [(x, vt) for (x, vt) in asg if vt in (SI, BI, BOOL)]
+            if len(sc_asg) >= 2:
+                choices += ["masg"] * max(2, len(choices) // 4)       # opt-in feature: several values at once
         if "assert" in self.feat and not self.pure_mode and self.in_fun and not self.in_gen and r.random() < 0.9:
             choices += ["assert"] * max(2, len(choices) // 3)       # opt-in feature (not in ALL_FEATURES): C03's abnormal-end family
         for x, (vt, a) in allv.items():
@@ -582,6 +587,22 @@ class ProgGen(object):
         if c == "halt":
             return {"e": "if", "c": self.expr(BOOL, scope, d - 1), "a": {"e": "error", "msg": "halt%d" % r.randint(0, 99)},
                     "b": {"e": "unit"}, "t": UNIT}
+        if c == "masg":
+            sc_asg = [(x, vt) for (x, vt) in asg if vt in (SI, BI, BOOL)]
+            k = min(len(sc_asg), r.choice([2, 2, 3]))
+            xs = r.sample(sc_asg, k)
+            ts = [vt for _, vt in xs]
+            fs = [i for i, f in enumerate(self.funs) if f["rt"] == ["tup", ts] and self.here(f)]
+            u = r.random()
+            if fs and u < 0.5:              # a call of a function that returns the values
+                fi = r.choice(fs)
+                v = {"e": "call", "fi": fi + 1, "args": [self.expr(t, scope, max(d - 1, 0)) for t in self.funs[fi]["pts"]]}
+            elif u < 0.75 and len(set(map(str, ts))) == 1:     # a rotation of the variables themselves
+                rot = xs[1:] + xs[:1]
+                v = {"e": "tuple", "args": [var(x) for x, _ in rot]}
+            else:
+                v = {"e": "tuple", "args": [self.expr(t, scope, max(d - 1, 0)) for t in ts]}
+            return {"e": "masg", "xs": [x for x, _ in xs], "v": v, "t": UNIT}
         if c == "assert":
             cond = self.expr(BOOL, scope, d - 1)
             u = r.random()
@@ -811,6 +832,32 @@ class ProgGen(object):
                     ops.append(body(1, i, 0))
             self.doms.append({"name": "PD%d" % k, "cat": 2, "pcat": 1, "ops": ops})
 
+    def tuple_functions(self):
+        """(feature "tup") functions that return several values: a pure one and one that prints before it returns."""
+        r = self.r
+        shapes = [[SI, SI], [SI, BOOL], [SI, SI, SI]] + ([[SI, BI], [BI, BI]] if "bi" in self.feat else [])
+        for ts in r.sample(shapes, min(len(shapes), r.randint(2, 3))):
+            for pure in (True, False):
+                if not pure and r.random() < 0.5:
+                    continue
+                name = self.fresh("f")
+                pts = [r.choice([SI, SI, BOOL] + ([BI] if "bi" in self.feat else [])) for _ in range(r.randint(1, 2))]
+                ps = [self.fresh("p") for _ in pts]
+                sc = Scope(self.gscope if not pure else None, "fun")
+                for p_, t in zip(ps, pts):
+                    sc.vars[p_] = (t, False)
+                save = (self.pure_mode, self.own, self.in_fun, self.funs)
+                self.pure_mode, self.own, self.in_fun = True, set(), self.in_fun + 1
+                if pure:
+                    self.funs = [f for f in self.funs if f.get("pure")]       # a pure function calls pure functions only
+                tup = {"e": "tuple", "args": [self.expr(t, sc, 2) for t in ts]}
+                self.pure_mode, self.own, self.in_fun, self.funs = save
+                es = [tup] if pure else [{"e": "print", "args": [{"e": "str", "s": "tup%d\n" % r.randint(0, 9)}]}, tup]
+                f = {"name": name, "oname": name, "ps": ps, "pts": pts, "rt": ["tup", ts], "pure": pure,
+                     "body": {"e": "seq", "t": ["tup", ts], "es": es}}
+                self.funs.append(f)
+                self.items.append(("f", f))
+
     def throwers(self):
         """(emphasis on exceptions) functions that throw a different exception for each small argument value."""
         for _ in range(2):
@@ -917,6 +964,15 @@ class ProgGen(object):
             self.throwers()
         for _ in range(r.randint(1, 3)):
             self.global_var()
+        if "tup" in self.feat:
+            if not any(t == SI for t, a in self.gscope.vars.values()):      # something to assign to
+                x = self.fresh("g")
+                self.gscope.vars[x] = (SI, True)
+                self.items.append(("t", {"d": "var", "x": x, "t": SI, "init": lit(SI, r.randint(-9, 9))}))
+            x = self.fresh("g")
+            self.gscope.vars[x] = (SI, True)
+            self.items.append(("t", {"d": "var", "x": x, "t": SI, "init": lit(SI, r.randint(-9, 9))}))
+            self.tuple_functions()
         for _ in range(nforms):
             c = r.random()
             if c < 0.25 and "fun" in self.feat:
@@ -1023,10 +1079,17 @@ class ProgGen(object):
         self.items = newitems
 
 
-def generate(seed, n, features=None, emph=()):
+def generate(seed, n, features=None, emph=(), extras=True):
+    """n programs of the family.  extras: every third program with drawn features also takes the level-independent opt-in
+    features (several values at once; exceptions that carry a value when it has exceptions at all), so that every check
+    built on the family meets them.  (`assert` stays out: -Qdel-assert makes its meaning depend on the level.)"""
     out = []
     for i in range(n):
         g = ProgGen(seed * 100003 + i, features=features, emph=emph)
+        if extras and features is None and i % 3 == 2:
+            g.feat |= {"tup"}
+            if "try" in g.feat and i % 2:
+                g.enable_payload()
         out.append(g.program("g%d_%d" % (seed, i)))
     return out
 
